@@ -346,6 +346,9 @@ def forms():
         "dict order keys": lambda m, x: x * float(["w", "b", "a"].index(list(_ab().dict({"w": x[0], "b": 1.0, "a": x[1]}).keys())[0]) + 1)
                                              + x[0, 0] * float("".join(k for k in _ab().dict({"z": x[0], "c": x[1], "m": 2.0})) == "zcm"),
         "dict order items": lambda m, x: _ab().list([v * (i + 1.0) for i, (k, v) in enumerate(_ab().dict({"q": x[0], "d": x[1, 1], "k": x[1]}).items())]),
+        # autograd.misc.const_graph: the second call of a wrapper replays the recorded graph (non-commutative operations of two traced operands)
+        "const_graph replay": lambda m, x: _cgraph(m, x, 2),
+        "const_graph third call": lambda m, x: _cgraph(m, x, 3),
         "dict empty": lambda m, x: _tup(_ab().dict({}), _ab().dict(), x[0]),
         "dict kwargs": lambda m, x: _ab().dict(a=x[0], b=2.0),
         "dict pairs": lambda m, x: _ab().dict([("a", x[0]), ("b", x[1, 0])]),
@@ -389,6 +392,19 @@ def _caught(m, x, mode):
     except _Stop:
         pass
     return m.tanh(x) * 2.0 + x[1, 1]
+
+
+def _cgraph(m, x, calls):
+    body = lambda a, b: (a - b) / (m.exp(b) + 2.0) + m.dot(a, b) * (b ** 2 - a) + m.arctan2(a, b + 3.0)
+    if m.__name__ == "numpy":
+        return body(x[0], x[1])
+    from autograd.misc.tracers import const_graph
+
+    cg = const_graph(body)
+    out = None
+    for k in range(calls):
+        out = cg(x[0] * (1.0 + (calls - 1 - k)), x[1])  # earlier calls at other values of the first operand; the last one at x itself
+    return out
 
 
 def _tup(*a):
